@@ -27,6 +27,16 @@ def fam(run, tier, quick_args, quick_n, thorough_args, thorough_n=None):
         run.exhaustive = thorough_n is None or len(f) < thorough_n
     return f, {p["id"]: p for p in f}
 
+def smoke_histories(run, tag):
+    """the fixed structured programs of ground.smoke() (cycles with late-failing heads and readers of provisional results, all
+    condition orders): every history of two goals, model-checked and replayed like the sampled family"""
+    sm = ground.smoke()
+    byid = {p["id"]: p for p in sm}
+    recs = gc.model_check(run, sm, gc.goals_atoms, {"MaxOps": 2, "Kinds": ["solve"], "MaxEvents": 600,
+                                                   "Invariants": ["ResultsCorrect", "DeviationShape", "EnginePanicShape"]}, tag)
+    gc.replay(run, recs, byid, [gc.SLG, gc.REC, gc.RECNC])
+    run.extra["smoke_programs"] = len(sm)
+
 # ------------------------------------------------------------------------------------------------
 @prop("C02")
 def c02(run, tier):
@@ -78,6 +88,7 @@ def c05(run, tier):
     run.assumptions = GROUND_ASSUME
     f, byid = fam(run, tier, (2, 3, 2, False, True), 350, (3, 3, 1, False, True), 6000)
     recs = gc.model_check(run, f, gc.goals_atoms, {"MaxOps": 2, "Kinds": ["solve"], "Invariants": ["ResultsCorrect", "DeviationShape", "EnginePanicShape", "BoundedWork"]}, "C05")
+    smoke_histories(run, "C05s")
     gc.replay(run, recs, byid, [gc.SLG, gc.REC, gc.RECNC])
     # auto-trait rendering of the same abstract programs
     autos = [r for r in recs if auto_ok(byid[r["id"]]) and set(byid[r["id"]]["co"]) == set(ground.all_atoms(byid[r["id"]])) and byid[r["id"]]["clauses"]]
@@ -137,6 +148,7 @@ def c10(run, tier):
         f, byid = fam(run, tier, None, None, (3, 3, 1, True, True), 1500)
         ops = 3
     recs = gc.model_check(run, f, gc.goals_atoms_and_not, {"MaxOps": ops, "Kinds": ["solve"], "Invariants": ["ResultsCorrect", "DeviationShape", "EnginePanicShape", "BoundedWork"]}, "C10")
+    smoke_histories(run, "C10s")
     recs = [r for r in recs if len(r["results"]) >= 2]
     gc.replay(run, recs, byid, [gc.SLG, gc.REC, gc.RECNC])
 
@@ -221,3 +233,4 @@ import props_panic  # noqa: E402  (registers C12)
 import props_terms  # noqa: E402  (registers C18, C25, C26)
 import props_infer  # noqa: E402  (registers C14, C15, C16)
 import props_sub  # noqa: E402  (registers C29)
+import props_mini  # noqa: E402  (registers C01, C03, C04, C06, C28)
